@@ -352,13 +352,93 @@ def C09_comment_fields(ctx, rid, core):
                      "reads .node of Commented members; emits .leading and .trailing: %s; guarded by has_comments(): %s" % (own, guarded), H.loc(n))
 
 
+def C09_single_members(ctx, rid, core):
+    """members that are not list elements (a do-block's return expression): every printer reachable from format_expr that
+    unwraps one must emit the comment fields that its sibling printers emit for the same AST slot"""
+    pf = printer_fns(core)
+    cg = M.CallGraph([core])
+    reach = cg.reachable_from([FMT + "format_expr"])
+    fns = {k: f for k, f in pf.items() if k in reach}
+
+    def origins(f):
+        org = {}
+        for i, p in enumerate(f.get("params", [])):
+            for bn in H.pat_binds(p):
+                org[bn] = ("param", i)
+        for n in H.walk(f["body"]):
+            pats = []
+            if H.kind(n) == "Match":
+                pats = [a["pat"] for a in n["arms"]]
+            elif H.kind(n) == "LetExpr":
+                pats = [n["pat"]]
+            for pat in pats:
+                for st in H.walk(pat):
+                    if H.kind(st) == "Struct" and "ast::Expr::" in (st["res"].get("def") or ""):
+                        for fl in st["fields"]:
+                            bn = H.pat_binds(fl["pat"])
+                            if len(bn) == 1:
+                                org[bn[0]] = ("slot", H.last(st["res"]["def"]) + "." + fl["name"])
+        return org
+
+    ORG = {k: origins(f) for k, f in fns.items()}
+
+    def resolve(fname, local, depth=0):
+        o = ORG.get(fname, {}).get(local)
+        if o is None:
+            return None
+        if o[0] == "slot":
+            return o[1]
+        if depth > 3:
+            return None
+        # a parameter: look at the call sites in the other printers
+        found = set()
+        for cname, cf in fns.items():
+            for n in H.walk(cf["body"]):
+                if H.kind(n) == "Call" and n.get("def") == fname and o[1] < len(n["args"]):
+                    l = H.path_local(n["args"][o[1]])
+                    if l is not None:
+                        r = resolve(cname, l, depth + 1)
+                        if r:
+                            found.add(r)
+        return sorted(found)[0] if len(found) == 1 else None
+
+    reads = {}
+    for fname, f in fns.items():
+        for x in H.walk(f["body"]):
+            if H.kind(x) == "Field" and x["name"] in ("node", "leading", "trailing") and "ast::Commented<" in H.strip(x["e"]).get("ty", "").lstrip("&").replace("alloc::boxed::Box<", ""):
+                l = H.path_local(x["e"])
+                if l is None:
+                    continue
+                slot = resolve(fname, l)
+                if slot is None:
+                    continue
+                reads.setdefault(slot, {}).setdefault(fname, set()).add(x["name"])
+    for slot, by_fn in sorted(reads.items()):
+        ref = set().union(*by_fn.values())
+        for fname, got in sorted(by_fn.items()):
+            if "node" not in got:
+                continue
+            missing = sorted(ref - got)
+            ctx.inst(rid, "%s#member=%s" % (fname.replace(CORE, ""), slot), not missing,
+                     "prints %s reading %s; the printers of this slot together emit %s%s" % (slot, sorted(got), sorted(ref), "" if not missing else ": this one drops %s" % missing), H.loc(fns[fname]["body"]))
+
+
 def C09_drivers(ctx, rid, core, cli, wasm, G):
     ctx.rule(rid, "every format driver consumes both child slots of `statement` (the statement and its end-of-line comment) and handles the same first-slot alternatives", floor=2)
     st = G.seq(G.expr("statement"))
     slots = len(st)
     ctx.inst(rid, "grammar#statement-slots", slots == 2 and st[1]["k"] == "opt", "statement = (..) ~ comment?: %d slots" % slots, "blots-core/src/grammar.pest")
+    def has_driver_arm(f_):
+        return any(H.kind(x) == "Call" and (x.get("def") or "").endswith("formatter::format_expr") for x in H.walk(f_["body"])) and \
+            any(H.kind(x) == "Path" and (x["res"].get("def") or "").endswith("Rule::statement") for x in H.walk(f_["body"]))
+
     for label, crate, fname in (("cli", cli, "blots::main"), ("wasm", wasm, "blots_wasm::format_blots")):
         f = crate.hir.get(fname)
+        if f is None or not has_driver_arm(f):
+            # the driver may have been moved into a helper: any function of the crate that matches Rule::statement and calls format_expr
+            cands = [(k_, v_) for k_, v_ in sorted(crate.hir.items()) if v_.get("body") is not None and has_driver_arm(v_)]
+            if cands:
+                fname, f = cands[0]
         if f is None:
             ctx.inst(rid, "%s#driver" % label, None, "driver function %s not found" % fname, None)
             continue
@@ -383,6 +463,22 @@ def C09_drivers(ctx, rid, core, cli, wasm, G):
             cmt = [x for x in H.walk(stmt_arm) if H.kind(x) == "Path" and (x["res"].get("def") or "").endswith("Rule::comment")]
             ok = (len(nexts) >= 2 or bool(loops)) and len(cmt) >= 2
             ctx.inst(rid, "%s#consumes-both-slots" % label, ok, "inner.next() x%d, loops over the children: %d, Rule::comment handled %d time(s) (standalone + end-of-line)" % (len(nexts), len(loops), len(cmt)), H.loc(stmt_arm))
+            # ... on every first-slot alternative: the second slot may not be read only inside some arms of the match on the first child
+            fms = [m for m in H.walk(stmt_arm) if H.kind(m) == "Match" and any(H.last(v) in ("expression", "output_declaration") for a in m["arms"] for v in H.pat_variants(a["pat"]))]
+            if fms and len(nexts) >= 2 and not loops:
+                FM = fms[0]
+                arm_of = {}
+                for a in FM["arms"]:
+                    vs = tuple(sorted(H.last(v) for v in H.pat_variants(a["pat"]))) or ("_",)
+                    for x in H.walk(a["body"]):
+                        arm_of[id(x)] = vs
+                second = nexts[1:]
+                outside = [x for x in second if id(x) not in arm_of]
+                holders = {arm_of[id(x)] for x in second if id(x) in arm_of}
+                need = [tuple(sorted(H.last(v) for v in H.pat_variants(a["pat"]))) for a in FM["arms"] if any(H.last(v) in ("expression", "output_declaration") for v in H.pat_variants(a["pat"]))]
+                okp = bool(outside) or all(n_ in holders for n_ in need)
+                ctx.inst(rid, "%s#second-slot-on-every-alternative" % label, okp,
+                         "the end-of-line comment slot is read %s" % ("after the match on the first child: for every alternative" if outside else "only inside the arms %s of the match on the first child (alternatives %s)" % (sorted(holders), need)), H.loc(FM))
             break
         if not found:
             ctx.inst(rid, "%s#consumes-both-slots" % label, None, "no statement arm calling format_expr found in %s" % fname, None)
